@@ -3,6 +3,7 @@ import Proofs.SqlReloadRoutes
 import Proofs.SqlLinks
 import Proofs.SqlInfer
 import Proofs.SqlParserTotal
+import Proofs.SqlLoadBridge
 
 /-!
   C01 — Persisted models load back unchanged (schema, values, links).
@@ -284,7 +285,7 @@ theorem unset_nullable_safe (t : Option Gen.Persist.Ty) (h : t = some .UNIQUE_ID
     accepted, builds, the built metamodel is `m.reloaded` (classes, attribute types, identifiers, rows, associations) and
     its keys denote the SAME links `L` — under the spec join `linksOfAssoc`; that the loader's `populate_connections`
     computes that join is C03's theorem about C03's model and the correspondence run here, not a Lean bridge. -/
-theorem reload_same (u : UC) (m : MM) (hw : m.WF u) (hm : m.Closed u) (hsafe : UnsetSafe u m) (_hres : RefsResolve u m)
+theorem reload_same_spec (u : UC) (m : MM) (hw : m.WF u) (hm : m.Closed u) (hsafe : UnsetSafe u m) (_hres : RefsResolve u m)
     (L : AssocM → List (Nat × Nat)) (hL : KeysResolve u m L) (text : Text)
     (hp : printItems u (m.serializeDatabase u) = some text) :
     ∃ stmts bs, classify u text = .accepted stmts ∧ build u stmts = .ok bs ∧
@@ -298,7 +299,7 @@ theorem reload_same (u : UC) (m : MM) (hw : m.WF u) (hm : m.Closed u) (hsafe : U
   exact hL a ham p
 
 /-- … and `persist_database` -/
-theorem reload_same_persist (u : UC) (m : MM) (hw : m.WF u) (hm : m.Closed u) (hsafe : UnsetSafe u m) (_hres : RefsResolve u m)
+theorem reload_same_persist_spec (u : UC) (m : MM) (hw : m.WF u) (hm : m.Closed u) (hsafe : UnsetSafe u m) (_hres : RefsResolve u m)
     (L : AssocM → List (Nat × Nat)) (hL : KeysResolve u m L) (text : Text)
     (hp : printItems u (m.persistDatabase u) = some text) :
     ∃ stmts bs, classify u text = .accepted stmts ∧ build u stmts = .ok bs ∧
@@ -310,6 +311,59 @@ theorem reload_same_persist (u : UC) (m : MM) (hw : m.WF u) (hm : m.Closed u) (h
   have ham : a ∈ m.assocs := (mem_sortBy _ _ _).mp ha
   rw [linksOfAssoc_reloaded u m hm hsafe _ a ham]
   exact hL a ham p
+
+/-! ### links: from the spec join to the LOADER MODEL (bridge to C03's model of `populate_connections`) -/
+
+/-- LINKS AGREE (Proofs/SqlLoadBridge.lean): `toLoad` maps a metamodel to the statement list of builder-C's loader model
+    (`Pyx.Load`: CREATE TABLE per class, CREATE ROP per association, one positional INSERT per row).  For every metamodel
+    in the bridge domain `LoadDom` -- closed; key attributes spelled exactly as declared (that model compares names
+    exactly); no attribute twice in a key list; corresponding key attributes of the same declared type (it has no
+    cross-type `1 == 1.0 == True`); every cell empty or of its column's type -- that model's `build` (five phases, hashed
+    index with its cache, `connect` in both directions; C03 proves hash join = nested join on it) ACCEPTS the statements,
+    keeps the associations in order, and both directed links it builds for an association hold exactly the pairs of the
+    spec join `linksOfAssoc`.  What remains between the loader model and `populate_connections` itself is C03's part:
+    its correspondence runs and the shape tie of its LoadDecisions table. -/
+theorem loader_links_are_spec_links (u : UC) (m : MM) (h : LoadDom u m) :
+    ∃ lm, Pyx.Load.build (toLoad u m) = some lm ∧ lm.assocs.map (fun x => x.1) = m.assocs.map toLAssoc ∧
+      ∀ a ∈ m.assocs, ∀ L, (toLAssoc a, L) ∈ lm.assocs → ∀ i j,
+        ((i, j) ∈ linksOfAssoc u m a ↔ j ∈ L.tgt i) ∧ ((i, j) ∈ linksOfAssoc u m a ↔ i ∈ L.src j) :=
+  links_agree u m h
+
+/-- … as a relation (`LoaderLinked u m a i j`: the loader model, built from the statements of `m`, links source row `i` and
+    target row `j` across `a` in both directions), and the domain is kept by reloading -/
+theorem loader_linked_iff_spec (u : UC) (m : MM) (h : LoadDom u m) (A : List AssocM) (hA : ∀ a ∈ A, a ∈ m.assocs) :
+    (∀ a ∈ m.assocs, ∀ i j, LoaderLinked u m a i j ↔ (i, j) ∈ linksOfAssoc u m a) ∧ LoadDom u (m.reloaded u A) :=
+  ⟨fun a ha i j => loaderLinked_iff u m h a ha i j, loadDom_reloaded u m h A hA⟩
+
+/-- RELOAD, both halves, with the link clause ON THE LOADER MODEL (corollary of `reload_same_partial`, `reload_links` and the
+    bridge): what `serialize_database` writes for a well-formed metamodel of the bridge domain is accepted, builds, the built
+    metamodel is `m.reloaded`, and the loader model builds from ITS statements exactly the links `L` the original holds
+    (`hL`: `L` is what the loader model builds from the statements of `m`) -- under `UnsetSafe`, the guard against the open
+    finding `unset-referential-relinks` -/
+theorem reload_same (u : UC) (m : MM) (hw : m.WF u) (hd : LoadDom u m) (hsafe : UnsetSafe u m) (_hres : RefsResolve u m)
+    (L : AssocM → List (Nat × Nat)) (hL : ∀ a ∈ m.assocs, ∀ i j, (i, j) ∈ L a ↔ LoaderLinked u m a i j) (text : Text)
+    (hp : printItems u (m.serializeDatabase u) = some text) :
+    ∃ stmts bs, classify u text = .accepted stmts ∧ build u stmts = .ok bs ∧
+      bs.toMM u = m.reloaded u m.assocsByIdKind ∧
+      ∀ a ∈ m.assocs, ∀ i j, (i, j) ∈ L a ↔ LoaderLinked u (bs.toMM u) a i j := by
+  obtain ⟨stmts, bs, hc, hb, he⟩ := reload_serializeDatabase u m hw hd.closed text hp
+  refine ⟨stmts, bs, hc, hb, he, ?_⟩
+  intro a ha i j
+  rw [he, hL a ha i j]
+  exact (loader_links_reloaded u m hd hsafe _ (fun x hx => (mem_sortBy _ _ _).mp hx) a ((mem_sortBy _ _ _).mpr ha) i j).symm
+
+/-- … and `persist_database` -/
+theorem reload_same_persist (u : UC) (m : MM) (hw : m.WF u) (hd : LoadDom u m) (hsafe : UnsetSafe u m) (_hres : RefsResolve u m)
+    (L : AssocM → List (Nat × Nat)) (hL : ∀ a ∈ m.assocs, ∀ i j, (i, j) ∈ L a ↔ LoaderLinked u m a i j) (text : Text)
+    (hp : printItems u (m.persistDatabase u) = some text) :
+    ∃ stmts bs, classify u text = .accepted stmts ∧ build u stmts = .ok bs ∧
+      bs.toMM u = m.reloaded u m.assocsById ∧
+      ∀ a ∈ m.assocs, ∀ i j, (i, j) ∈ L a ↔ LoaderLinked u (bs.toMM u) a i j := by
+  obtain ⟨stmts, bs, hc, hb, he⟩ := reload_persistDatabase u m hw hd.closed text hp
+  refine ⟨stmts, bs, hc, hb, he, ?_⟩
+  intro a ha i j
+  rw [he, hL a ha i j]
+  exact (loader_links_reloaded u m hd hsafe _ (fun x hx => (mem_sortBy _ _ _).mp hx) a ((mem_sortBy _ _ _).mpr ha) i j).symm
 
 /-! ### text fixed point at model level -/
 
@@ -583,7 +637,7 @@ theorem mPets_refsResolve : RefsResolve UC.ascii mPets := by
 /-- the links its keys denote: the first dog belongs to the first owner -/
 example : linksOf UC.ascii mPets = [(mPets.assocs.head!, [(0, 0)])] := by decide
 
-/-- `reload_same` APPLIED: the text `serialize_database` writes for `mPets` (it exists: every cell holds a value of its
+/-- `reload_same_spec` APPLIED: the text `serialize_database` writes for `mPets` (it exists: every cell holds a value of its
     column's type) is accepted, builds, the built metamodel is `mPets.reloaded` and its keys denote the same links -/
 example : ∃ text stmts bs, printItems UC.ascii (mPets.serializeDatabase UC.ascii) = some text ∧
     classify UC.ascii text = .accepted stmts ∧ build UC.ascii stmts = .ok bs ∧
@@ -592,8 +646,38 @@ example : ∃ text stmts bs, printItems UC.ascii (mPets.serializeDatabase UC.asc
   cases hp : printItems UC.ascii (mPets.serializeDatabase UC.ascii) with
   | none => exact absurd hp (by decide)
   | some text =>
-    obtain ⟨stmts, bs, h1, h2, h3, h4⟩ := reload_same UC.ascii mPets (mPets_wf _) mPets_closed mPets_unsetSafe mPets_refsResolve
+    obtain ⟨stmts, bs, h1, h2, h3, h4⟩ := reload_same_spec UC.ascii mPets (mPets_wf _) mPets_closed mPets_unsetSafe mPets_refsResolve
       (fun a => linksOfAssoc UC.ascii mPets a) (fun _ _ _ => Iff.rfl) text hp
     exact ⟨text, stmts, bs, rfl, h1, h2, h3, h4⟩
+
+/-- `mPets` is in the bridge domain: keys spelled as declared, both key columns UNIQUE_ID, every cell typed -/
+theorem mPets_loadDom : LoadDom UC.ascii mPets := by
+  refine ⟨mPets_closed, by decide, by decide, by decide, by decide, ?_⟩
+  intro c hc r hr
+  apply typed_of_rowTypedM
+  revert r hr c hc
+  decide
+
+/-- THE BRIDGE APPLIED: builder-C's loader model accepts the statements of `mPets` and links exactly dog 0 to owner 0 -/
+example : ∀ i j, LoaderLinked UC.ascii mPets mPets.assocs.head! i j ↔ (i, j) ∈ [(0, 0)] := by
+  intro i j
+  rw [loaderLinked_iff UC.ascii mPets mPets_loadDom _ (by decide)]
+  have : linksOfAssoc UC.ascii mPets mPets.assocs.head! = [(0, 0)] := by decide
+  rw [this]
+
+/-- `reload_same` APPLIED: written, loaded and handed to the loader model again, `mPets` keeps exactly that link -/
+example : ∃ text stmts bs, printItems UC.ascii (mPets.serializeDatabase UC.ascii) = some text ∧
+    classify UC.ascii text = .accepted stmts ∧ build UC.ascii stmts = .ok bs ∧
+    ∀ a ∈ mPets.assocs, ∀ i j, LoaderLinked UC.ascii mPets a i j ↔ LoaderLinked UC.ascii (bs.toMM UC.ascii) a i j := by
+  cases hp : printItems UC.ascii (mPets.serializeDatabase UC.ascii) with
+  | none => exact absurd hp (by decide)
+  | some text =>
+    obtain ⟨stmts, bs, h1, h2, _, h4⟩ := reload_same UC.ascii mPets (mPets_wf _) mPets_loadDom mPets_unsetSafe mPets_refsResolve
+      (fun a => linksOfAssoc UC.ascii mPets a)
+      (fun a ha i j => (loaderLinked_iff UC.ascii mPets mPets_loadDom a ha i j).symm) text hp
+    refine ⟨text, stmts, bs, rfl, h1, h2, ?_⟩
+    intro a ha i j
+    rw [← h4 a ha i j]
+    exact loaderLinked_iff UC.ascii mPets mPets_loadDom a ha i j
 
 end PyxProps.C01
